@@ -50,6 +50,15 @@ func runC12(c *Ctx) {
 			w0 := bc.Warriors[0]
 			shifts = append(shifts, ((m-w0.Off-w0.Start)%m+m)%m, ((m-w0.Off-1)%m+m)%m)
 		}
+		// half of the cases place every shifted battle on ONE simulator that is Reset in between
+		var reuse g.ReportingSimulator
+		var reuseW []g.Warrior
+		if r.Bool() {
+			reuse, reuseW, _ = bc.newReal(r.Intn(m))
+			if reuse != nil {
+				try(func() { reuse.Run() })
+			}
+		}
 		for _, k := range shifts {
 			if k == 0 {
 				continue
@@ -73,7 +82,20 @@ func runC12(c *Ctx) {
 				var ws []g.Warrior
 				var surv []bool
 				if p, msg := try(func() {
-					s, ws, err = bc.newReal(shift)
+					if reuse != nil {
+						// the same simulator again: Reset, spawn at the new places, run
+						s, ws = reuse, reuseW
+						s.Reset()
+						for i, w := range bc.Warriors {
+							if e := s.SpawnWarrior(i, g.Address(w.Off+shift)); e != nil {
+								err = e
+								return
+							}
+						}
+						c.Inc("shifts_on_a_reset_simulator")
+					} else {
+						s, ws, err = bc.newReal(shift)
+					}
 					if err == nil {
 						surv = s.Run()
 					}
